@@ -103,13 +103,14 @@ def loss_per_sample(out, tgt):
 
 
 class Crit:
-    def __init__(self, red):
+    def __init__(self, red, col=False):
         self.reduction = red
+        self.col = col
 
     def __call__(self, out, tgt):
         per = loss_per_sample(out, tgt)
         if self.reduction == 'none':
-            return per
+            return per.unsqueeze(1) if self.col else per
         return per.mean() if self.reduction == 'mean' else per.sum()
 
 
@@ -122,7 +123,7 @@ def build(case, model):
     if clip == 'ghost':
         gsm = GradSampleModuleFastGradientClipping(model, loss_reduction=red, max_grad_norm=case['C'])
         opt = DPOptimizerFastGradientClipping(inner, max_grad_norm=case['C'], **kw)
-        crit = DPLossFastGradientClipping(gsm, opt, Crit(red), red)
+        crit = DPLossFastGradientClipping(gsm, opt, Crit(red, bool(case.get('lcol'))), red)
     else:
         gsm = GradSampleModule(model, loss_reduction=red)
         crit = Crit(red)
